@@ -158,6 +158,26 @@ def h_grid(cx, nu, nv, scenario):
         g.generate(nu, nv)
         cx.eq('grid_after_reset', g.grid, expect([1] * npts))
         return
+    elif scenario == 'rejected':
+        # assignments that are rejected (no positive entry, wrong length, non-positive scalar) leave everything as it was
+        g.weight = list(W)
+        g.grid
+        for bad in ([-1 - i for i in range(npts)], [1] * (npts + 1), -2, 0, [0] * npts):
+            try:
+                g.weight = bad
+                cx.fail('rejected_%s' % (str(bad)[:20],), 'assignment was accepted')
+            except (ValueError, TypeError):
+                pass
+        cx.eq('weights_after_rejections', list(g.weight), W)
+        cx.eq('grid_after_rejections', g.grid, expect(W))
+        h = cx.real('h')
+        if nu == 2 and nv == 2:
+            g.bumps(1, bump_height=h, base_extent=1)
+            exp = expect(W)
+            w_mid = W[1 + (nv + 1) * 1]
+            exp[1][1] = [exp[1][1][0], exp[1][1][1], h * w_mid, w_mid]
+            cx.eq('grid_after_rejections_and_bumps', g.grid, exp)
+        return
     elif scenario == 'scalar':
         k = cx.real('k', positive=True)
         g.weight = k
@@ -240,6 +260,8 @@ def instances(tier):
         for sc in ('set_then_read', 'read_set_read', 'set_twice', 'scalar', 'regenerate', 'reset'):
             out.append(inst('gridweighted %dx%d %s' % (nu, nv, sc), h_grid, nu=nu, nv=nv, scenario=sc))
     out.append(inst('gridweighted 2x2 bumps_after_read', h_grid, nu=2, nv=2, scenario='bumps_after_read'))
+    out.append(inst('gridweighted 2x2 rejected', h_grid, nu=2, nv=2, scenario='rejected'))
+    out.append(inst('gridweighted 1x2 rejected', h_grid, nu=1, nv=2, scenario='rejected'))
     for sp in (spec('curve', (2,), ((1,),)), spec('surface', (1, 2), ((1,), ())), spec('volume', (1, 1, 2), ((), (1,), ()))):
         out.append(inst('%s convert' % spec_name(sp), h_convert, timeout=900, sp=sp))
     return out
